@@ -1806,3 +1806,71 @@ def _(m, callee, args):
         m.write_place(r_.frame, r_.place, RStr(out))
         return ()
     return RStr(out)
+
+
+# ------------------------------------------------------------------ integer ranges as iterators; boxed slices
+def _range_items(m, v):
+    v = deref_all(m, v)
+    if isinstance(v, Struct) and len(v.fields) == 2 and all(isinstance(x, int) for x in v.fields):
+        return list(range(v.fields[0], v.fields[1]))
+    raise Unsupported(f'integer range with symbolic bounds: {v!r}')
+
+
+def _range_map(m, callee, args):
+    return PyIter('map', inner=PyIter('list', items=_range_items(m, args[0]), pos=0), closure=args[1])
+
+
+_prepend(r'^<(std::ops::)?Range<usize> as Iterator>::map::<', _range_map)
+_prepend(r'^<(std::ops::)?Range<usize> as IntoIterator>::into_iter$', lambda m, c, a: PyIter('list', items=_range_items(m, a[0]), pos=0))
+
+
+@model(r' as Iterator>::collect::<Box<\[.*\]>>$')
+def _(m, callee, args):
+    # Box<[T]> as MIR sees it: Box { 0: Unique { pointer: NonNull<[T]> } }; the pointer is modelled as a reference to the slice
+    return Struct([Struct([ValRef(RVec(drain(m, args[0])))], 'Unique')], 'Box')
+
+
+@model(r'^(Hash|BTree)(Map|Set)::<.*>::(len|is_empty)$')
+def _(m, callee, args):
+    n = len(deref_all(m, args[0]).items)
+    return (n == 0) if callee.endswith('is_empty') else n
+
+
+@model(r'^(Hash|BTree)(Map|Set)::<.*>::clear$')
+def _(m, callee, args):
+    deref_all(m, args[0]).items[:] = []
+    return ()
+
+
+@model(r'^HashSet::<.*>::remove::<')
+def _(m, callee, args):
+    hs = deref_all(m, args[0])
+    i = hs.find(m, args[1])
+    if i < 0:
+        return False
+    hs.items.pop(i)
+    return True
+
+
+@model(r'^HashMap::<.*>::entry$')
+def _(m, callee, args):
+    return ('hentry', deref_all(m, args[0]), args[1], 'path' if callee.startswith('HashMap::<PathBuf') else 'plain')
+
+
+def _hentry_or(m, callee, args):
+    e = args[0]
+    hm, key = e[1], e[2]
+    i = _hfind_path(m, hm, key) if len(e) > 3 and e[3] == 'path' else hm.find(m, key)
+    if i < 0:
+        if 'or_default' in callee:
+            val = HMap() if 'HashSet' in callee else (BTree() if 'BTree' in callee else HMap())
+        elif 'or_insert_with' in callee:
+            val = m.call_closure(args[1], [])
+        else:
+            val = args[1]
+        hm.items.append((deref_all(m, key), val))
+        i = len(hm.items) - 1
+    return ValRef(hm.items[i][1])
+
+
+_prepend(r'^std::collections::hash_map::Entry::<.*>::(or_default|or_insert|or_insert_with::<.*)$', _hentry_or)
